@@ -10,6 +10,7 @@ require (
 	github.com/cosmos/cosmos-db v1.0.2
 	github.com/cosmos/cosmos-sdk v0.50.10
 	github.com/cosmos/gogoproto v1.7.0
+	github.com/ethereum/go-ethereum v1.10.26
 	mods.irisnet.org/e2e v0.0.0
 	mods.irisnet.org/modules/coinswap v0.0.0-20240725053619-ef0885f8eb03
 	mods.irisnet.org/modules/farm v0.0.0-20240725053619-ef0885f8eb03
@@ -69,7 +70,6 @@ require (
 	github.com/desertbit/timer v0.0.0-20180107155436-c41aec40b27f // indirect
 	github.com/dvsekhvalnov/jose2go v1.6.0 // indirect
 	github.com/emicklei/dot v1.6.1 // indirect
-	github.com/ethereum/go-ethereum v1.10.26 // indirect
 	github.com/fatih/color v1.15.0 // indirect
 	github.com/felixge/httpsnoop v1.0.4 // indirect
 	github.com/fsnotify/fsnotify v1.7.0 // indirect
